@@ -55,6 +55,8 @@ def plan(tier, seed):
     wc = wc_lattice.jobs("C10", tier)
     jobs += wc if tier == "thorough" else [j for j in wc if "cats=1,none,null=1" in j["name"] or
                                            "v2,cats=0,none,null=1,pages=2" in j["name"]]
+    jobs.append(dict(name="C10-lemma-specs-match-idl", kind="pyfunc", timeout=300,
+                     payload=dict(func="vf.pyshim.lemmas:specs_match_idl")))
     extra = dict(
         explanation="T1: the varint/zigzag kernels (LLVM IR of the generated C) are compared with ULEB128/zigzag over "
                     "the full 64-bit range by z3. T4: ThriftObject.to_bytes, write_thrift and write_list are lifted "
